@@ -121,6 +121,13 @@ def op_insert(sec, i):
             "rec": {"bad": rec is None, "r": rec if rec is not None else struct_rec([], 0, 0)}}
 
 
+def padded(op, k):
+    """the same insertion, its text written with k blanks (spaces and tabs) wherever the compact text has one"""
+    o = dict(op)
+    o["text"] = (" " * (k // 2) + "\t" * (k - k // 2)).join(op["text"].split(" "))
+    return o
+
+
 CLASSES = {"IN": 1, "CH": 3, "HS": 4, "NONE": 254, "ANY": 255}
 TYPES = {"A": 1, "TXT": 16, "OPT": 41}
 
@@ -448,6 +455,10 @@ def size_limit_histories():
             n += 1
             pkt = hdr(13, 0x8180, 1, n, 0, 0) + q + recs
             out.append(scen(pkt, [ins, {"op": "read_question"}, op_insert("AR", 3)]))
+            # the same record written with long runs of blanks between its fields (the text is hundreds of characters
+            # long, the wire record 19 bytes: what counts against the limit is the record, not its notation)
+            for sec in ("AN", "NS", "AR"):
+                out.append(scen(pkt, [padded(op_insert(sec, 0), 60 if sec == "AN" else 400), {"op": "read_question"}, op_insert("AR", 3)]))
             # the record that crosses the limit is an OPT pseudo-record (its summary must not outlive a refusal)
             out.append(scen(pkt, [op_insert_raw("AR", 0), {"op": "read_question"}, ins]))
             # the packet already carries an OPT record advertising a payload below / at / above the limit: the limit
@@ -479,3 +490,11 @@ def size_limit_histories():
         grow = cursor_op("AN", False, 1, [("set_raw_name", name("b" * 10)), ("set_raw_name", name("c" * 11)), ("next", [])])   # +10, then one more
         out.append(scen(pkt, [grow, {"op": "read_question"}, cursor_op("AN", False, 0, [("set_raw_name", name("z")), ("next", []), ("delete", [])])]))
     return out
+
+
+def text_insert_histories():
+    """C13's share of the near-limit histories: a record written with long runs of blanks, inserted through the
+    text interface into packets whose decompressed size leaves room for exactly the record / one byte less /
+    a little more."""
+    return [h for h in size_limit_histories() if "\t" in json.loads(h)["ops"][0].get("text", "")]
+
